@@ -616,6 +616,31 @@ func derivesFrom(v ssa.Value, src func(ssa.Value) bool) bool {
 					return true
 				}
 			}
+		case *ssa.Alloc:
+			// local aggregate (varargs array, composite literal, spilled parameter): whatever was stored into it
+			for _, st := range storesTo(x) {
+				if rec(st.Val, d+1) {
+					return true
+				}
+			}
+			if refs := x.Referrers(); refs != nil {
+				for _, ref := range *refs {
+					switch a := ref.(type) {
+					case *ssa.IndexAddr:
+						for _, st := range storesTo(a) {
+							if rec(st.Val, d+1) {
+								return true
+							}
+						}
+					case *ssa.FieldAddr:
+						for _, st := range storesTo(a) {
+							if rec(st.Val, d+1) {
+								return true
+							}
+						}
+					}
+				}
+			}
 		}
 		return false
 	}
